@@ -209,6 +209,10 @@ def run(ctx, drv):
         cvpool = [0.0, 0.0, 1.0, 2.0] if rng.random() < 0.65 else [0.0, 0.0, 1e-7, 2e-7, 5e-7, 1e-12]
         sols = [mk_sol(p, [float(rng.choice(grid)) if grid else rng.uniform(0, 1) for _ in range(nobj)], rng.choice(cvpool) if con else 0.0) for _ in range(n)]
         alg = A_.SPEA2(p, population_size=N, k=kk)
+        if not (hasattr(alg, "_assign_fitness") and hasattr(alg, "_truncate")):
+            if t == 0:
+                ctx.notes.append("SPEA2._assign_fitness / _truncate not present under these names: the function-level stream is skipped (per-generation replay of real runs still applies)")
+            continue
         inp = {"maximise": list(dirs), "constrained": con, "N": N, "k": kk, "merged": [[list(map(float, s.objectives)), float(s.constraint_violation)] for s in sols]}
 
         def go(alg=alg, sols=sols, N=N):
@@ -239,6 +243,9 @@ def run(ctx, drv):
     # recorded random.choice outcomes): the model must reproduce survivors and ideal point exactly
     import n3fn
     nn3 = 300 if ctx.quick() else 5000
+    if not hasattr(A_.NSGAIII, "_reference_point_truncate"):
+        ctx.notes.append("NSGAIII._reference_point_truncate not present under this name: the function-level stream is skipped")
+        nn3 = 0
     for t in range(nn3):
         line, obs, inp, fails, nontriv = n3fn.case(rng, t)
         for kind, got, want in fails:
